@@ -118,7 +118,7 @@ def _run_case(case, ctx):
                 opts["normalize_factors"] = True
                 which = "normalize"
         elif algo == "nn_parafac_hals":
-            which = gen.choice(rs, ["plain", "normalize", "nn_modes", "sparsity", "exact"])
+            which = gen.choice(rs, ["plain", "normalize", "nn_modes", "nn_modes+fixed", "sparsity", "exact"])
             if which == "normalize":
                 opts["normalize_factors"] = True
             elif which == "nn_modes":
@@ -126,6 +126,21 @@ def _run_case(case, ctx):
                 sel = sorted(rs.choice(order, size=k, replace=False).tolist())
                 opts["nn_modes"] = set(sel) if sel else None
                 declared = sel
+            elif which == "nn_modes+fixed":
+                # some modes fixed (never the last, which the algorithm refuses to fix) while non-negativity is declared on a strict subset:
+                # the solver choice must follow the mode, not the position in the list of updated modes
+                k = int(rs.randint(1, order))
+                sel = sorted(rs.choice(order, size=k, replace=False).tolist())
+                kf = int(rs.randint(1, order))
+                fx = sorted(rs.choice(order - 1, size=min(kf, order - 1), replace=False).tolist())
+                opts["nn_modes"] = set(sel)
+                opts["fixed_modes"] = fx if rs.rand() < 0.7 else tuple(fx)
+                declared = sel
+                if init_kind != "user":
+                    init_kind = "user"
+                    opts.pop("init", None)
+                    init = user_cp(shp, rank)
+                n_iter = max(n_iter, 1)
             elif which == "sparsity":
                 opts["sparsity_coefficients"] = [float(gen.choice(rs, [0.01, 0.5, 5.0])) for _ in range(order)]
             elif which == "exact" and max(shp) <= 3 and rank <= 2 and n_iter <= 1:
@@ -133,7 +148,7 @@ def _run_case(case, ctx):
             else:
                 which = "plain"
         else:
-            form = gen.choice(rs, ["scalar", "dict", "list"])
+            form = gen.choice(rs, ["scalar", "dict", "list", "mixed", "mixed"])
             which = "non_negative-" + form
             if form == "scalar":
                 opts["non_negative"] = True
@@ -142,8 +157,27 @@ def _run_case(case, ctx):
                 sel = sorted(rs.choice(order, size=k, replace=False).tolist())
                 opts["non_negative"] = {m: True for m in sel}
                 declared = sel
-            else:
+            elif form == "list":
                 opts["non_negative"] = [True] * order
+            else:
+                # non-negativity on a strict subset of the modes plus a second constraint on (some of) the others, in every spelling
+                # (dict / list with empty entries) of both: the second constraint must not undo the first
+                k = int(rs.randint(1, order))
+                sel = sorted(rs.choice(order, size=k, replace=False).tolist())
+                others = [m for m in range(order) if m not in sel]
+                osel = [m for m in others if rs.rand() < 0.7] or others[:1]
+                declared = sel
+                if rs.rand() < 0.5:
+                    opts["non_negative"] = {m: True for m in sel}
+                else:
+                    opts["non_negative"] = [True if m in sel else gen.choice(rs, [None, False]) for m in range(order)]
+                second, par = gen.choice(rs, [("l1_reg", 0.05), ("l2_reg", 0.1), ("l2_square_reg", 0.1), ("smoothness", 0.5), ("hard_sparsity", 2), ("normalize", True), ("monotonicity", True), ("unimodality", True), ("soft_sparsity", 1.5)])
+                if rs.rand() < 0.3:
+                    opts[second] = {m: par for m in osel}
+                    which += "+dict"
+                else:
+                    opts[second] = [par if m in osel else gen.choice(rs, [None, False, 0]) for m in range(order)]
+                    which += "+list"
             opts["n_iter_max_inner"] = int(gen.choice(rs, [1, 3, 10]))
     elif algo in ("nn_tucker", "nn_tucker_hals"):
         shp = data["shape"]
